@@ -1,5 +1,7 @@
 import Dasp.Lemmas.Rms
 import Dasp.Lemmas.SqrtTrick
+import Dasp.Lemmas.RmsRounding
+import Dasp.Lemmas.RoundRel
 import Mathlib.Analysis.Real.Sqrt
 import Mathlib.Tactic.NormNum
 /-!
@@ -26,9 +28,17 @@ What is proved here and what is only measured:
 * the no_std square root, every positive normal f32 / f64 bit pattern, constants read from
   ops.rs on this run: PROVED (section 5);
 * "never negative": the clamp makes the running sum non-negative in ANY arithmetic: PROVED
-  (`running_sum_never_negative`); NaN-freedom and the size of the float deviation from the exact
-  mean are MEASURED by the harness against the explicit bound `(2.2k+N+8)·u·M/N` (a test, see
-  props/C11.json), not proved.
+  (`running_sum_never_negative`);
+* *"to within a rigorous floating-point error bound"*: PROVED in section 6 for the standard model of
+  rounded arithmetic (every operation = the exact one followed by a rounding `rnd` with
+  `|rnd x − x| ≤ u·|x| + η`), for the very same `Chan.nextSquared`: after `k` frames since the last
+  reset the returned mean square is within `δ + u·B + η + (1+u)·E_{k+1}/N` of the exact mean, with
+  `E_{k+1} ≤ 2(k+1)(u(3N+4)B + 3η)` while `6u(k+1) ≤ 1`; the rounding of the executable soft-float
+  (`Machine/FP.round`, = IEEE binary32/binary64 as validated bit-for-bit on every run) is proved to
+  satisfy the hypothesis with `u = 2^−prec`, `η = 2^(emin−1)`, absent overflow.  What stays MEASURED:
+  that no operation overflows for the inputs at hand (NaN-freedom; known finding for huge inputs),
+  and — as a cross-check of the theorem's hypotheses against the hardware — the harness compares
+  every output's deviation with an explicit bound formula on every run.
 -/
 set_option linter.unusedSectionVars false
 set_option linter.dupNamespace false
@@ -219,6 +229,122 @@ theorem root_within_7_percent_of_squares (a x : ℝ) (ha : 0 ≤ a) (hx : 0 ≤ 
     `1.5·2^−64 ≈ 8.1e−20` (f32) and `1.5·2^−512 ≈ 1.1e−154` (f64) -/
 theorem nostd_sqrt_at_zero : approx32 0 = 0x1fc00000 ∧ approx64 0 = 0x1ff8000000000000 := by
   constructor <;> simp [approx32, approx64, approxBits, Gen.Sqrt.bias32, Gen.Sqrt.shift32, Gen.Sqrt.bias64, Gen.Sqrt.shift64, Nat.shiftRight_eq_div_pow]
+
+
+/-! ## 6. Rounded arithmetic: the rigorous floating-point error bound
+
+`Rounding.rndArith rnd` is the arithmetic in which every operation of `Model/Rms.lean` is the exact
+one followed by `rnd`; `Rounding.nextSqR rnd` is `Chan.nextSquared` in that arithmetic and
+`Rounding.feedR rnd c xs` the state after the inputs `xs`.  `N ≤ 2^24` is assumed in that
+`window.len() as f32` is taken to be exact. -/
+
+open Dasp.Rms.Rounding
+
+/-- the bound on the computed squares and on their distance from the true squares that follows
+    from a bound `M` on the true squares -/
+theorem square_bounds {rnd : K → K} {u η M : K} (ok : RndOK rnd u η) (x : K) (hM : x * x ≤ M) :
+    rnd (x * x) ≤ (1 + u) * M + η ∧ |rnd (x * x) - x * x| ≤ u * M + η := by
+  have h := ok.err (x * x)
+  have h0 : 0 ≤ x * x := mul_self_nonneg x
+  rw [abs_of_nonneg h0] at h
+  have hu : u * (x * x) ≤ u * M := mul_le_mul_of_nonneg_left hM ok.u0
+  have h' := abs_le.mp h
+  refine ⟨by linarith, le_trans h (by linarith)⟩
+
+/-- *"After any sequence of input frames"* (rounded arithmetic): after ANY `k` inputs whose squares
+    are at most `M`, the running sum the code holds differs from the sum of the squares in its window
+    by at most `E_k`, the window has length `N`, and every stored square is within `u·M + η` of the
+    true square. -/
+theorem rounded_running_sum_drift {n : Nat} (hn : 1 ≤ n) {rnd : K → K} {u η M : K} (ok : RndOK rnd u η)
+    (hM0 : 0 ≤ M) (xs : List K) (hM : ∀ x ∈ xs, x * x ≤ M) :
+    let B := (1 + u) * M + η
+    let c := feedR rnd (@Chan.init K (rndArith rnd) n) xs
+    |c.sum - c.window.sum| ≤ errBound u (stepC n u η B) xs.length ∧ c.window.length = n ∧
+    List.Forall₂ (fun a b => |a - b| ≤ u * M + η) c.window (specWindow n xs) := by
+  intro B c
+  have hB : 0 ≤ B := by have := ok.u0; have := ok.η0; positivity
+  have hδ : 0 ≤ u * M + η := by have := ok.u0; have := ok.η0; positivity
+  have := RInv.feed hn ok hB hδ xs (fun x hx => square_bounds ok x (hM x hx))
+  exact ⟨this.sum, this.len, this.close⟩
+
+/-- *"equals … the mean of the squares of the most recent N frames … to within a rigorous
+    floating-point error bound"*: after any `k` inputs since the last reset, the value `next_squared`
+    returns for the next input is within
+    `(u·M + η) + u·B + η + (1+u)·E_{k+1}/N` of the exact mean of the squares of the last `N` inputs,
+    `B = (1+u)·M + η`, `E` the drift recurrence `E_{j+1} = (1+3u)·E_j + u(3N+4)B + 3η`. -/
+theorem rounded_next_squared_error_bound {n : Nat} (hn : 1 ≤ n) {rnd : K → K} {u η M : K} (ok : RndOK rnd u η)
+    (hM0 : 0 ≤ M) (xs : List K) (x : K) (hM : ∀ y ∈ xs ++ [x], y * y ≤ M) :
+    let B := (1 + u) * M + η
+    |(nextSqR rnd (feedR rnd (@Chan.init K (rndArith rnd) n) xs) x).2 - meanSq n (xs ++ [x])|
+      ≤ (u * M + η) + u * B + η + (1 + u) * errBound u (stepC n u η B) (xs.length + 1) / n := by
+  intro B
+  have hB : 0 ≤ B := by have := ok.u0; have := ok.η0; positivity
+  have hδ : 0 ≤ u * M + η := by have := ok.u0; have := ok.η0; positivity
+  have hC : 0 ≤ stepC n u η B := by have := ok.u0; have := ok.η0; unfold stepC; positivity
+  have hinv := RInv.feed hn ok hB hδ xs (fun y hy => square_bounds ok y (hM y (by simp [hy])))
+  obtain ⟨h1, h2⟩ := square_bounds ok x (hM x (by simp))
+  exact out_close hn ok hB (errBound_nonneg ok.u0 hC _) hδ hinv x h1 h2
+
+/-- the same bound in closed form, linear in the number of frames since the last reset, for
+    histories with `6·u·(k+1) ≤ 1` (k < 2.7·10^6 frames in f32, < 1.5·10^15 in f64):
+    `|out − mean| ≤ (u·M + η) + u·B + η + (1+u)·2(k+1)(u(3N+4)B + 3η)/N` -/
+theorem rounded_next_squared_error_bound_linear {n : Nat} (hn : 1 ≤ n) {rnd : K → K} {u η M : K}
+    (ok : RndOK rnd u η) (hM0 : 0 ≤ M) (xs : List K) (x : K) (hM : ∀ y ∈ xs ++ [x], y * y ≤ M)
+    (hk : 6 * u * ((xs.length + 1 : Nat) : K) ≤ 1) :
+    let B := (1 + u) * M + η
+    |(nextSqR rnd (feedR rnd (@Chan.init K (rndArith rnd) n) xs) x).2 - meanSq n (xs ++ [x])|
+      ≤ (u * M + η) + u * B + η + (1 + u) * (2 * ((xs.length + 1 : Nat) : K) * stepC n u η B) / n := by
+  intro B
+  have hB : 0 ≤ B := by have := ok.u0; have := ok.η0; positivity
+  have hC : 0 ≤ stepC n u η B := by have := ok.u0; have := ok.η0; unfold stepC; positivity
+  have h1 := rounded_next_squared_error_bound hn ok hM0 xs x hM
+  have h2 := errBound_linear ok.u0 hC (xs.length + 1) hk
+  have hnK : (0 : K) < n := by exact_mod_cast (show 0 < n by omega)
+  have hu := ok.u0
+  have h3 : (1 + u) * errBound u (stepC n u η B) (xs.length + 1) / n
+      ≤ (1 + u) * (2 * ((xs.length + 1 : Nat) : K) * stepC n u η B) / n := by
+    apply div_le_div_of_nonneg_right _ (le_of_lt hnK)
+    exact mul_le_mul_of_nonneg_left h2 (by linarith)
+  exact le_trans h1 (by linarith)
+
+/-- *"and resets"*: a reset from any state whose window has its length `N` leads to the initial
+    state also in rounded arithmetic, so the drift bound restarts from zero: the bounds above count
+    the frames since the last reset -/
+theorem rounded_reset_restarts {n : Nat} (rnd : K → K) (c : Chan K) (h : c.window.length = n) (xs : List K) :
+    feedR rnd (@Chan.reset K (rndArith rnd) c) xs = feedR rnd (@Chan.init K (rndArith rnd) n) xs := by
+  rw [reset_eq_init rnd c h]
+
+/-- the hypothesis is what IEEE rounding provides: the rounding function of the executable
+    soft-float (`Machine/FP.round` returns exactly `rs F x` whenever it returns a finite value,
+    `round_toRat_eq_rs`) satisfies `RndOK` with `u = 2^−prec`, `η = 2^(emin−1)` — binary32:
+    `u = 2^−24`, `η = 2^−150`; binary64: `u = 2^−53`, `η = 2^−1075` -/
+theorem softfloat_rounding_ok (F : Fmt2) (hp : 0 < F.prec) :
+    RndOK (rs F) (pow2 (-(F.prec : Int))) (pow2 (F.emin - 1)) where
+  u0 := le_of_lt (pow2_pos _)
+  u1 := by
+    have : pow2 (-(F.prec : Int)) ≤ pow2 0 := pow2_mono (by omega)
+    simpa [pow2] using this
+  η0 := le_of_lt (pow2_pos _)
+  err := rs_err F
+  nonneg := fun _ hx => rs_nonneg F hx
+
+/-- the value of a finite soft-float result IS `rs` of the exact result (no overflow), so the
+    analysis above is about the numbers `Machine/FP.add/mul/div` produce -/
+theorem softfloat_value_is_rs (F : Fmt2) (neg : Bool) (x v : ℚ) (h : (round F neg x).toRat? = some v) :
+    v = rs F x := round_toRat_eq_rs F neg x v h
+
+/-- binary32 instance of the error bound, window 4, squares ≤ 1, 3 frames of history:
+    every hypothesis is satisfiable and the bound is a concrete small number -/
+example : RndOK (rs f32) (pow2 (-24)) (pow2 (-150)) := softfloat_rounding_ok f32 (by decide)
+
+example :
+    let u : ℚ := pow2 (-(f32.prec : Int)); let η : ℚ := pow2 (f32.emin - 1); let B := (1 + u) * 1 + η
+    |(nextSqR (rs f32) (feedR (rs f32) (@Chan.init ℚ (rndArith (rs f32)) 4) [1/2, -1/3]) (1/5)).2
+        - meanSq 4 ([1/2, -1/3] ++ [1/5])|
+      ≤ (u * 1 + η) + u * B + η + (1 + u) * errBound u (stepC 4 u η B) (([1/2, -1/3] : List ℚ).length + 1) / (4 : ℕ) :=
+  rounded_next_squared_error_bound (n := 4) (by norm_num) (softfloat_rounding_ok f32 (by decide)) (M := 1)
+    (by norm_num) [1/2, -1/3] (1/5)
+    (by intro y hy; simp at hy; rcases hy with rfl | rfl | rfl <;> norm_num)
 
 /-! ## Non-vacuity: every hypothesis instantiated on concrete non-trivial data -/
 
